@@ -273,6 +273,6 @@ def run(ctx, rep):
     from rules.C13 import raw_rules as _raw13
     _raw13(facts, rep)                 # reported as C14/C13-RAW
     from rules.shared_zip64 import pair_rules
-    pair_rules(ctx, facts, rep, rule="C14-Z64", side="write")   # a copy of a ZIP64-sized entry carries its sizes in the 64-bit slots they belong to
+    pair_rules(ctx, facts, rep, rule="C14-Z64", side="both")   # a copy of a ZIP64-sized entry carries its sizes in the 64-bit slots they belong to
     from rules.C02 import limit_rules
     limit_rules(facts, rep)            # reported as C14/C02-LIMIT: a copy may be renamed to ANY valid name (up to 65535 bytes)
